@@ -15,7 +15,7 @@ class H2Run(AsyncRun):
     def __init__(self, calls, pool_kwargs=None, srv=None, body_frames=(6, 6), uploads=None):
         kw = dict(max_connections=2, http1=False, http2=True)
         kw.update(pool_kwargs or {})
-        self.srv = dict(settings=[], goaway=None, rst=[], window=None, init_settings=None, wu_unit=None, early_head=False)
+        self.srv = dict(settings=[], goaway=None, rst=[], window=None, init_settings=None, wu_unit=None, early_head=False, start_after_ack=False)
         self.srv.update(srv or {})
         self.body_frames = body_frames
         self.peers = []
@@ -46,6 +46,11 @@ class H2Run(AsyncRun):
                 out = orig(data)
                 if not was and p.started:
                     self.wire.append(self.initial_settings_event())
+                    late = getattr(p, "late_settings", None)
+                    if late:
+                        import h2.settings
+
+                        self.wire.append({"e": "S_SETTINGS", "mcs": -1, "iws": int(late.get(h2.settings.SettingCodes.INITIAL_WINDOW_SIZE, -1)), "mfs": -1})
                 return out
 
             p.feed = feed
@@ -113,6 +118,13 @@ class H2Run(AsyncRun):
     # ---- server stimuli ----
     def enabled(self):
         en = super().enabled()
+        if self.srv.get("start_after_ack"):
+            # the first call warms the connection up; the others start only once the client has
+            # acknowledged every SETTINGS frame sent so far (so that the advertised windows BIND it)
+            sent = sum(1 for e in self.wire if e["e"] == "S_SETTINGS")
+            acked = sum(1 for e in self.wire if e["e"] == "C_ACK")
+            if acked < max(1, sent):
+                en = [x for x in en if not (x[0] == "start" and x[1] != self.order[0])]
         for ci, rec in enumerate(self.net.streams):
             peer = rec.peer
             if not isinstance(peer, H2ServerPeer) or not rec.open or peer.closed or not peer.started:
